@@ -42,6 +42,10 @@ def build(seed, i, tier, readers=0, families=None, ctx=None, with_operands=True)
     init = _thr.init_content(kind, fresh)
     pre = [{"t": "new_res", "family": fam, "kind": kind, "init": init}]
     rebound = with_operands and nobj >= 2 and rs.random() < 0.12
+    late_threading = rs.random() < 0.1
+    if late_threading:
+        # the objects are constructed while threading support is switched OFF; it is switched on before the threads start
+        pre.append({"t": "threading", "on": False})
     for o_ in range(nobj):
         if rebound and o_ == nobj - 1:
             # this object is opened on ANOTHER file first and then pointed at the shared file (obj.filename = ...): it must
@@ -51,6 +55,8 @@ def build(seed, i, tier, readers=0, families=None, ctx=None, with_operands=True)
             pre.append({"t": "rebind", "oid": o_, "rid": 0})
         else:
             pre.append({"t": "new_obj", "rid": 0, "wc": cfg["wc"]})
+    if late_threading:
+        pre.append({"t": "threading", "on": True})
     paths = _thr.CHILD_PATHS[kind]
     hpaths = [[] for _ in range(nobj)]
     hobj = list(range(nobj))
